@@ -3668,6 +3668,18 @@ func (r *Resolver) processAuthoritySection(ctx context.Context, rs *resolveState
 
 	// Extract nameserver information
 	nsInfo := r.extractDelegationInfo(resp)
+	if minimized && (len(nsInfo.hosts) == 0 || nsInfo.hasSOA) {
+		// Not a referral, so this is the zone's own word about the
+		// minimised name — a name the client never asked about. Whatever it
+		// denies (a NODATA that arrived without its SOA, say), it denies
+		// for that shorter name only and is never the answer to the full
+		// question: keep walking, exactly as for the SOA-bearing form above.
+		// Both arms below validate against minReq; neither may run for a
+		// minimised question.
+		rs.level++
+		rs.isRoot = false
+		return r.resolve(ctx, rs)
+	}
 	if len(nsInfo.hosts) == 0 {
 		result, err := r.authority(ctx, minReq, resp, rs.parentDS, rs.servers.Zone)
 		if err == nil {
